@@ -35,7 +35,11 @@ var zzOpName = []string{"writefile", "mkdirall", "remove", "removeall", "readfil
 // either unchanged or equal to the result for the clamped path; no panic and
 // no phantom node follow from the comparison.
 func zzOpen(fs filesystem.Filespace, before, after *reftree.Node, label string) {
-	nd.Assert(nd.Or(reftree.Same(fs, before, nil), reftree.Same(fs, after, nil)), label)
+	if reftree.Same(fs, before, nil) {
+		*after = *before
+		return
+	}
+	nd.Assert(reftree.Same(fs, after, nil), label)
 }
 
 func zzReadAll(r io.Reader, bufSize int) ([]byte, bool) {
